@@ -77,6 +77,8 @@ def static_gate():
     """No Admitted/admit/Axiom/Parameter/...; Variable/Hypothesis/Context only inside a Section."""
     problems = []
     files = []
+    with Lock("coq"):
+        coq_makefile()   # (re)generates _CoqProject from the tree
     for root, _, fs in os.walk(COQ):
         for f in fs:
             if f.endswith(".v"):
